@@ -2,15 +2,26 @@ import PetgraphModel.Common
 import PetgraphModel.Model.GraphMap
 import PetgraphModel.Spec.SimpleGraph
 import PetgraphModel.Spec.SimpleGraphJudge
+import PetgraphModel.Spec.C03Dump
 /-
 C03 driver: runs the mirror model (`GM`) and the abstract simple graph (`SG`) side by side with the
 implementation's answers.
 
-* exact part: the model's answer, rendered, must equal the implementation's line (incl. iteration order);
+* exact part: the model's answer, rendered, must equal the implementation's line (incl. iteration order
+  and numbering).  The mirror model is proved to answer exactly what the ORDERED specification machine
+  (`Spec/C03Ordered.lean`: insertion order + `swap_remove`, as `IndexMap`/`Vec` document) answers, for all
+  histories (`C03_ordered_all_histories`), so a `MODELDIFF` is a deviation from that machine.  petgraph
+  itself promises no order, hence never a `SPECFAIL` for order alone.
 * spec part: the implementation's answer is parsed into an `Out` and judged against the abstract graph
-  with the executable counterpart of `SimpleGraphSpec.OutOk` (lists as sets, edge orientation of an
-  undirected `all_edges` free, numbering only required to be a bijection …).  Node values are drawn
-  from `0..K` (`k=K` on the case line), so the abstract sets are enumerated over `List.range K`.
+  with `SimpleGraphSpec.judgeB`, proved to decide `OutOk` (lists as duplicate-free enumerations, edge
+  orientation of an undirected `all_edges` free, a single numbering answer only required to be in range);
+  a `dump` is parsed into a `C03Dump.Dump` and judged with `dumpOkB`, proved to decide `DumpOk` (all
+  listings, counts, the numbering a bijection consistent with the iterators, `rev`/`last`/`nth` agreeing
+  with the forward iteration).  Node values are drawn from `0..K` (`k=K` on the case line), so the abstract
+  sets are enumerated over `List.range K`.
+* side condition of those two decision theorems (`OpBounded`: node values below `K`): checked on every call
+  (`advance`); a failure is `SPECFAIL generator left the proved range`.  `C03_driver_in_scope` proves that
+  the two machines are always the result of one checked history from the empty graph.
 -/
 namespace PetgraphModel.C03
 open PetgraphModel PetgraphModel.GM PetgraphModel.SimpleGraphSpec
@@ -198,10 +209,13 @@ def explain (g : SG) (k : Nat) : Op → Out → Option String
       | _ => some s!"from_index({i}) answered [{showOut o}]"
     else expectOut .panic o
   | .edgeToIndex a b, o =>
-    match o with
-    | .nat i => if g.hasEdge a b && i < (specEdgeKeys g k).length then none else some s!"to_index(({a},{b})) = {i}: not an edge or out of range"
-    | .panic => none   -- which of the two orientations of an undirected edge is its id is judged in `dump`
-    | _ => some s!"edge to_index answered [{showOut o}]"
+    if g.hasEdge a b then match o with
+      | .nat i => if i < (specEdgeKeys g k).length then none else some s!"to_index(({a},{b})) = {i} is not below edge_count"
+      | .panic =>
+        -- only the other orientation of an undirected edge may be refused (see `OutOk`)
+        if !g.directed && a != b then none else some s!"to_index(({a},{b})) panicked although ({a},{b}) is an edge"
+      | _ => some s!"edge to_index answered [{showOut o}]"
+    else (expectOut .panic o).map fun why => s!"to_index(({a},{b})) of a pair that is not an edge: {why}"
   | .edgeFromIndex i, o =>
     if i < (specEdgeKeys g k).length then match o with
       | .pair a b => if g.hasEdge a b then none else some s!"from_index({i}) = {a}:{b} is not an edge"
@@ -218,7 +232,7 @@ def explain (g : SG) (k : Nat) : Op → Out → Option String
 
 /-- `none` = the answer is what the property prescribes in the abstract graph `g` (before the call) -/
 def judge (g : SG) (k : Nat) (op : Op) (o : Out) : Option String :=
-  orWhy (judgeB g k op o) (explain g k op o)
+  if judgeB g k op o then none else some ((explain g k op o).getD "rejected by the specification")
 
 /-! ### request parsing -/
 
@@ -263,41 +277,53 @@ def parseOp (req : List String) : Option Op :=
   | ["into_graph"] => some .intoGraph
   | _ => none
 
-/-! ### the dump: a full observation through the public API -/
+/-! ### the dump: a full observation through the public API
 
-def outStr (s : GM.State) (op : Op) : String := showOut (GM.step s op).2
+`Spec/C03Dump.lean` has the dump as a value (`Dump`), the mirror model's dump (`modelDumpS`), the
+statement `DumpOk` and the executable check `dumpOkB` (proved equivalent, and proved to accept the
+model's dump in every reachable state: `Theorems/C03.lean`).  Here: rendering, parsing and the wording
+of a rejection. -/
+open PetgraphModel.C03Dump
 
 def joinD (l : List String) : String := if l.isEmpty then "-" else String.intercalate "," l
 
 def showOptNats (l : List (Option Nat)) : String :=
   if l.isEmpty then "-" else String.intercalate "," (l.map fun o => match o with | some n => toString n | none => "x")
 
-/-- the model's dump line, field for field what `harness/src/c03.rs::dump` prints -/
-def modelDump (s : GM.State) (k : Nat) : String :=
-  let q := outStr s
-  let nodes := GM.nodesOf s
-  let es := GM.allEdges s
+def orPanic {α : Type} (f : α → String) : Option α → String
+  | some x => f x
+  | none => "panic"
+
+def showOptT3 : Option T3 → String
+  | some e => showTriple e
+  | none => "none"
+
+def renderSec (sec : NodeSec) : String :=
+  String.intercalate " " [
+    toString sec.v, s!"c={if sec.c then 1 else 0}",
+    s!"N={orPanic showNats sec.nb}", s!"NO={orPanic showNats sec.nbO}", s!"NI={orPanic showNats sec.nbI}",
+    s!"E={orPanic showTriples sec.ed}", s!"EO={orPanic showTriples sec.edO}", s!"EI={orPanic showTriples sec.edI}",
+    s!"W={showOptNats sec.w}",
+    s!"A={String.intercalate "" (sec.adj.map fun b => if b then "1" else "0")}"]
+
+/-- a dump as the line `harness/src/c03.rs::dump` prints -/
+def renderDump (d : Dump) : String :=
   let head := String.intercalate " " [
-    s!"nc={q .nodeCount}", s!"ec={q .edgeCount}", s!"nb={q .nodeCount}", s!"eb={q .edgeCount}",
-    s!"nodes={q .nodes}", s!"ids={q .nodes}", s!"refs={q .nodes}",
-    s!"edges={q .allEdges}", s!"erefs={q .allEdges}",
-    s!"ni={joinD (nodes.map fun n => q (.toIndex n))}",
-    s!"nf={joinD ((List.range nodes.length).map fun i => q (.fromIndex i))}",
-    s!"ei={joinD (es.map fun e => q (.edgeToIndex e.1 e.2.1))}",
-    s!"ef={joinD ((List.range es.length).map fun i => q (.edgeFromIndex i))}",
-    s!"dir={if s.directed then 1 else 0}",
-    s!"rnodes={showNats nodes.reverse}", s!"nlen={q .nodeCount}",
-    s!"redges={showTriples es.reverse}", s!"ecnt={q .edgeCount}",
-    s!"elast={match es.getLast? with | some e => showTriple e | none => "none"}",
-    s!"enth={match es[es.length / 2]? with | some e => showTriple e | none => "none"}"]
-  let per := (univ k).map fun v =>
-    String.intercalate " " [
-      toString v, s!"c={if GM.containsNode s v then 1 else 0}",
-      s!"N={q (.neighbors v)}", s!"NO={q (.neighborsDirected v .out)}", s!"NI={q (.neighborsDirected v .inc)}",
-      s!"E={q (.edges v)}", s!"EO={q (.edgesDirected v .out)}", s!"EI={q (.edgesDirected v .inc)}",
-      s!"W={showOptNats ((univ k).map fun b => GM.edgeWeight s v b)}",
-      s!"A={String.intercalate "" ((univ k).map fun b => if GM.containsEdge s v b then "1" else "0")}"]
-  String.intercalate " | " (head :: per)
+    s!"nc={d.nc}", s!"ec={d.ec}", s!"nb={d.nb}", s!"eb={d.eb}",
+    s!"nodes={showNats d.nodes}", s!"ids={showNats d.ids}", s!"refs={showNats d.refs}",
+    s!"edges={showTriples d.edges}", s!"erefs={showTriples d.erefs}",
+    s!"ni={joinD (d.ni.map (orPanic toString))}",
+    s!"nf={joinD (d.nf.map (orPanic toString))}",
+    s!"ei={joinD (d.ei.map (orPanic toString))}",
+    s!"ef={joinD (d.ef.map (orPanic fun p => s!"{p.1}:{p.2}"))}",
+    s!"dir={if d.dir then 1 else 0}",
+    s!"rnodes={showNats d.rnodes}", s!"nlen={d.nlen}",
+    s!"redges={showTriples d.redges}", s!"ecnt={d.ecnt}",
+    s!"elast={showOptT3 d.elast}", s!"enth={showOptT3 d.enth}"]
+  String.intercalate " | " (head :: d.per.map renderSec)
+
+/-- the model's dump line -/
+def modelDump (s : GM.State) (k : Nat) : String := renderDump (modelDumpS s k)
 
 def fields (seg : String) : List (String × String) :=
   (splitWords seg).filterMap fun w =>
@@ -310,6 +336,77 @@ def field (fs : List (String × String)) (key : String) : String :=
   | some p => p.2
   | none => "?missing"
 
+/-- a field through parser `p`; the error names the field and shows its text -/
+def fld {α : Type} (fs : List (String × String)) (name key : String) (p : String → Option α) : Except String α :=
+  match p (field fs key) with
+  | some x => .ok x
+  | none => .error s!"{name}: [{field fs key}]"
+
+/-- comma-separated entries, each an answer or a caught `panic` -/
+def parseEntries {α : Type} (p : String → Option α) (s : String) : Option (List (Option α)) :=
+  if s == "-" then some [] else (s.splitOn ",").mapM fun x => if x == "panic" then some none else (p x).map some
+
+/-- a whole answer or a caught `panic` -/
+def parseOrPanic {α : Type} (p : String → Option α) (s : String) : Option (Option α) :=
+  if s == "panic" then some none else (p s).map some
+
+def parseBit (s : String) : Option Bool :=
+  if s == "1" then some true else if s == "0" then some false else none
+
+def parseBits (s : String) : Option (List Bool) :=
+  s.toList.mapM fun c => if c == '1' then some true else if c == '0' then some false else none
+
+def parseOptT3 (s : String) : Option (Option T3) :=
+  if s == "none" then some none else (parseTriple s).map some
+
+def parseSec (seg : String) : Except String NodeSec :=
+  match (splitWords seg).head?.bind (·.toNat?) with
+  | none => .error s!"node section [{seg}]"
+  | some v =>
+    let fs := fields seg
+    let f := fun {α : Type} (name key : String) (p : String → Option α) => fld fs s!"node {v}: {name}" key p
+    do
+      let c ← f "contains_node" "c" parseBit
+      let nb ← f "neighbors" "N" (parseOrPanic parseNatsStrict)
+      let nbO ← f "neighbors_directed(Outgoing)" "NO" (parseOrPanic parseNatsStrict)
+      let nbI ← f "neighbors_directed(Incoming)" "NI" (parseOrPanic parseNatsStrict)
+      let ed ← f "edges" "E" (parseOrPanic parseTriples)
+      let edO ← f "edges_directed(Outgoing)" "EO" (parseOrPanic parseTriples)
+      let edI ← f "edges_directed(Incoming)" "EI" (parseOrPanic parseTriples)
+      let w ← f "edge_weight row" "W" parseOptNats
+      let adj ← f "contains_edge row" "A" parseBits
+      pure { v, c, nb, nbO, nbI, ed, edO, edI, w, adj }
+
+def parseDump (impl : String) : Except String Dump :=
+  match impl.splitOn " | " with
+  | [] => .error "empty dump"
+  | head :: per =>
+    let fs := fields head
+    do
+      let nc ← fld fs "node_count" "nc" (·.toNat?)
+      let ec ← fld fs "edge_count" "ec" (·.toNat?)
+      let nb ← fld fs "node_bound" "nb" (·.toNat?)
+      let eb ← fld fs "edge_bound" "eb" (·.toNat?)
+      let nodes ← fld fs "nodes" "nodes" parseNatsStrict
+      let ids ← fld fs "node_identifiers" "ids" parseNatsStrict
+      let refs ← fld fs "node_references" "refs" parseNatsStrict
+      let edges ← fld fs "all_edges" "edges" parseTriples
+      let erefs ← fld fs "edge_references" "erefs" parseTriples
+      let ni ← fld fs "to_index" "ni" (parseEntries (·.toNat?))
+      let nf ← fld fs "from_index" "nf" (parseEntries (·.toNat?))
+      let ei ← fld fs "edge to_index" "ei" (parseEntries (·.toNat?))
+      let ef ← fld fs "edge from_index" "ef" (parseEntries parsePair)
+      let dir ← fld fs "is_directed" "dir" parseBit
+      let rnodes ← fld fs "nodes().rev()" "rnodes" parseNatsStrict
+      let nlen ← fld fs "nodes().len()" "nlen" (·.toNat?)
+      let redges ← fld fs "all_edges().rev()" "redges" parseTriples
+      let ecnt ← fld fs "all_edges().count()" "ecnt" (·.toNat?)
+      let elast ← fld fs "all_edges().last()" "elast" parseOptT3
+      let enth ← fld fs "all_edges().nth(edge_count/2)" "enth" parseOptT3
+      let per ← per.mapM parseSec
+      pure { nc, ec, nb, eb, nodes, ids, refs, edges, erefs, ni, nf, ei, ef, dir, rnodes, nlen, redges, ecnt,
+             elast, enth, per }
+
 def orElse (a : Option String) (b : Unit → Option String) : Option String :=
   match a with
   | some x => some x
@@ -321,104 +418,109 @@ def firstSome : List (Unit → Option String) → Option String
 
 def tag (t : String) (o : Option String) : Option String := o.map fun why => s!"{t}: {why}"
 
-def needNats (name s : String) (f : List Nat → Option String) : Option String :=
-  match parseNatsStrict s with
-  | some l => tag name (f l)
-  | none => some s!"{name}: [{s}]"
-def needTriples (name s : String) (f : List (Nat × Nat × Nat) → Option String) : Option String :=
-  match parseTriples s with
-  | some l => tag name (f l)
-  | none => some s!"{name}: [{s}]"
+def needSome {α : Type} (name : String) (o : Option α) (f : α → Option String) : Option String :=
+  match o with
+  | some x => tag name (f x)
+  | none => some s!"{name} panicked"
+
+def explainSec (g : SG) (k : Nat) (v : Nat) (sec : NodeSec) : Option String :=
+  tag s!"node {v}" <| firstSome [
+    fun _ => if sec.v == v then none else some s!"section is labelled {sec.v}",
+    fun _ => if sec.c == g.node v then none else some s!"contains_node={sec.c}",
+    fun _ => needSome "neighbors" sec.nb (okNeighbors g k v .out),
+    fun _ => needSome "neighbors_directed(Outgoing)" sec.nbO (okNeighbors g k v .out),
+    fun _ => needSome "neighbors_directed(Incoming)" sec.nbI (okNeighbors g k v .inc),
+    fun _ => needSome "edges" sec.ed (okEdges g k v .out),
+    fun _ => needSome "edges_directed(Outgoing)" sec.edO (okEdges g k v .out),
+    fun _ => needSome "edges_directed(Incoming)" sec.edI (okEdges g k v .inc),
+    fun _ =>
+      let want := (univ k).map fun b => g.w v b
+      if sec.w == want then none else some s!"edge_weight row {showOptNats sec.w}, expected {showOptNats want}",
+    fun _ =>
+      let want := (univ k).map fun b => g.hasEdge v b
+      if sec.adj == want then none else some s!"contains_edge row differs from the abstract graph's"]
+
+def explainSecs (g : SG) (k : Nat) : Nat → List NodeSec → Option String
+  | _, [] => none
+  | i, sec :: t => orElse (explainSec g k i sec) fun _ => explainSecs g k (i + 1) t
+
+/-- wording of a rejected dump (the decision itself is `dumpOkB`) -/
+def explainDump (g : SG) (k : Nat) (d : Dump) : Option String :=
+  let nc := specNodeCount g k
+  let ec := (specEdgeKeys g k).length
+  let cnt := fun (name : String) (got want : Nat) (_ : Unit) =>
+    if got == want then none else some s!"{name}={got}, the abstract graph has {want}"
+  firstSome [
+    cnt "node_count" d.nc nc, cnt "edge_count" d.ec ec, cnt "node_bound" d.nb nc, cnt "edge_bound" d.eb ec,
+    fun _ => tag "nodes" (okNodes g k d.nodes),
+    fun _ => tag "node_identifiers" (okNodes g k d.ids),
+    fun _ => tag "node_references" (okNodes g k d.refs),
+    fun _ => tag "all_edges" (okAllEdges g k d.edges),
+    fun _ => tag "edge_references" (okAllEdges g k d.erefs),
+    -- compact numbering: from_index enumerates the nodes, to_index is its inverse
+    fun _ => match allSomes d.nf with
+      | none => some "from_index panicked below node_count"
+      | some nf =>
+        orElse (tag "from_index" (okNodes g k nf)) fun _ =>
+        match allSomes d.ni with
+        | none => some "to_index panicked on a node that nodes() lists"
+        | some ni =>
+          if ni.length ≠ d.nodes.length then some "to_index list has the wrong length"
+          else match (d.nodes.zip ni).find? (fun p => nf[p.2]? != some p.1) with
+            | some p => some s!"to_index({p.1}) = {p.2} but from_index({p.2}) = {showOptNat nf[p.2]?}"
+            | none => none,
+    fun _ => match allSomes d.ef with
+      | none => some "edge from_index panicked below edge_count"
+      | some ef =>
+        orElse (tag "edge from_index" (okAllEdges g k (withWeights g ef))) fun _ =>
+        match allSomes d.ei with
+        | none => some "edge to_index panicked on an edge id that all_edges() lists"
+        | some ei =>
+          if ei.length ≠ d.edges.length then some "edge to_index list has the wrong length"
+          else match ((d.edges.map edgeId).zip ei).find? (fun p => ef[p.2]? != some p.1) with
+            | some p => some s!"edge to_index(({p.1.1},{p.1.2})) = {p.2} but from_index({p.2}) differs"
+            | none => none,
+    fun _ => if d.dir == g.directed then none else some s!"is_directed={d.dir}",
+    cnt "nodes().len()" d.nlen nc, cnt "all_edges().count()" d.ecnt ec,
+    -- the iterators' own `rev`/`last`/`nth` must agree with the sequence the same iterator yields forwards
+    fun _ => if d.rnodes == d.nodes.reverse then none
+      else some s!"nodes().rev() = [{showNats d.rnodes}] is not the reverse of nodes() = [{showNats d.nodes}]",
+    fun _ => if d.redges == d.edges.reverse then none
+      else some s!"all_edges().rev() = [{showTriples d.redges}] is not the reverse of all_edges() = [{showTriples d.edges}]",
+    fun _ => if d.elast == d.edges.getLast? then none
+      else some s!"all_edges().last() = {showOptT3 d.elast} is not the last of [{showTriples d.edges}]",
+    fun _ => if d.enth == d.edges[d.edges.length / 2]? then none
+      else some s!"all_edges().nth({d.edges.length / 2}) = {showOptT3 d.enth} is not that element of [{showTriples d.edges}]",
+    fun _ => if d.per.length == k then none else some s!"dump has {d.per.length} node sections, expected {k}",
+    fun _ => explainSecs g k 0 d.per]
 
 /-- spec-level judgment of the implementation's dump line -/
 def judgeDump (g : SG) (k : Nat) (impl : String) : Option String :=
-  match impl.splitOn " | " with
-  | [] => some "empty dump"
-  | head :: per =>
-    let h := fields head
-    let f := field h
-    let nc := specNodeCount g k
-    let ec := (specEdgeKeys g k).length
-    let cnt := fun (name : String) (want : Nat) (_ : Unit) =>
-      if f name == toString want then none else some s!"{name}={f name}, the abstract graph has {want}"
-    let oneEdge := fun (name v : String) (expectSome : Bool) =>
-      if v == "none" then (if expectSome then some s!"{name} = none on a graph with edges" else none)
-      else match parseTriple v with
-        | some e => if expectSome && g.w e.1 e.2.1 == some e.2.2 then none else some s!"{name} = {v} is not an edge of the graph"
-        | none => some s!"{name}: [{v}]"
-    let headChecks : List (Unit → Option String) := [
-      cnt "nc" nc, cnt "ec" ec, cnt "nb" nc, cnt "eb" ec,
-      fun _ => needNats "nodes" (f "nodes") (okNodes g k),
-      fun _ => needNats "node_identifiers" (f "ids") (okNodes g k),
-      fun _ => needNats "node_references" (f "refs") (okNodes g k),
-      fun _ => needTriples "all_edges" (f "edges") (okAllEdges g k),
-      fun _ => needTriples "edge_references" (f "erefs") (okAllEdges g k),
-      -- compact numbering: from_index enumerates the nodes, to_index is its inverse
-      fun _ => needNats "from_index" (f "nf") fun nf =>
-        orElse (okNodes g k nf) fun _ =>
-        needNats "nodes" (f "nodes") fun nodes =>
-        needNats "to_index" (f "ni") fun ni =>
-          if ni.length ≠ nodes.length then some "to_index list has the wrong length"
-          else match (nodes.zip ni).find? (fun p => nf[p.2]? != some p.1) with
-            | some p => some s!"from_index(to_index({p.1})) = {showOptNat nf[p.2]?}"
-            | none => none,
-      fun _ =>
-        match parsePairs (f "ef"), parseTriples (f "edges") with
-        | some ef, some es =>
-          orElse (tag "edge from_index" (okAllEdges g k (ef.map fun p => (p.1, p.2, (g.w p.1 p.2).getD 0)))) fun _ =>
-          needNats "edge to_index" (f "ei") fun ei =>
-            if ei.length ≠ es.length then some "edge to_index list has the wrong length"
-            else match (es.zip ei).find? (fun p => ef[p.2]? != some (p.1.1, p.1.2.1)) with
-              | some p => some s!"from_index(to_index({p.1.1}:{p.1.2.1})) differs"
-              | none => none
-        | _, _ => some s!"edge from_index: [{f "ef"}]",
-      fun _ => if f "dir" == (if g.directed then "1" else "0") then none else some s!"is_directed={f "dir"}",
-      fun _ => needNats "nodes().rev()" (f "rnodes") (okNodes g k),
-      cnt "nlen" nc, cnt "ecnt" ec,
-      fun _ => needTriples "all_edges().rev()" (f "redges") (okAllEdges g k),
-      -- `last`/`nth` answer an edge of the graph exactly when there is one at that position
-      fun _ => oneEdge "all_edges().last()" (f "elast") (ec > 0),
-      fun _ => oneEdge "all_edges().nth(edge_count/2)" (f "enth") (ec > 0),
-      -- the iterators' own `rev`/`last`/`nth` must agree with the sequence the same iterator yields forwards
-      fun _ => match parseNatsStrict (f "nodes"), parseNatsStrict (f "rnodes") with
-        | some a, some b => if b == a.reverse then none else some s!"nodes().rev() = [{f "rnodes"}] is not the reverse of nodes() = [{f "nodes"}]"
-        | _, _ => some "nodes/rnodes unparsable",
-      fun _ => match parseTriples (f "edges"), parseTriples (f "redges") with
-        | some a, some b =>
-          if b != a.reverse then some s!"all_edges().rev() = [{f "redges"}] is not the reverse of all_edges() = [{f "edges"}]"
-          else if f "elast" != (match a.getLast? with | some e => showTriple e | none => "none") then
-            some s!"all_edges().last() = {f "elast"} is not the last of [{f "edges"}]"
-          else if f "enth" != (match a[a.length / 2]? with | some e => showTriple e | none => "none") then
-            some s!"all_edges().nth({a.length / 2}) = {f "enth"} is not that element of [{f "edges"}]"
-          else none
-        | _, _ => some "edges/redges unparsable"]
-    orElse (firstSome headChecks) fun _ =>
-    if per.length ≠ k then some s!"dump has {per.length} node sections, expected {k}" else
-    firstSome (per.map fun seg => fun _ =>
-      let fs := fields seg
-      let p := field fs
-      match (splitWords seg).head?.bind (·.toNat?) with
-      | none => some s!"node section [{seg}]"
-      | some v =>
-        tag s!"node {v}" <| firstSome [
-          fun _ => if p "c" == (if g.node v then "1" else "0") then none else some s!"contains_node={p "c"}",
-          fun _ => needNats "neighbors" (p "N") (okNeighbors g k v .out),
-          fun _ => needNats "neighbors_directed(Outgoing)" (p "NO") (okNeighbors g k v .out),
-          fun _ => needNats "neighbors_directed(Incoming)" (p "NI") (okNeighbors g k v .inc),
-          fun _ => needTriples "edges" (p "E") (okEdges g k v .out),
-          fun _ => needTriples "edges_directed(Outgoing)" (p "EO") (okEdges g k v .out),
-          fun _ => needTriples "edges_directed(Incoming)" (p "EI") (okEdges g k v .inc),
-          fun _ =>
-            let want := showOptNats ((univ k).map fun b => g.w v b)
-            if p "W" == want then none else some s!"edge_weight row {p "W"}, expected {want}",
-          fun _ =>
-            let want := String.intercalate "" ((univ k).map fun b => if g.hasEdge v b then "1" else "0")
-            if p "A" == want then none else some s!"contains_edge row {p "A"}, expected {want}"])
+  match parseDump impl with
+  | .error why => some why
+  | .ok d => if dumpOkB g k d then none else some ((explainDump g k d).getD "dump rejected by the specification")
 
 def verdict (spec : Option String) (model impl : String) : String :=
   match spec with
   | some why => s!"SPECFAIL {why}"
   | none => cmpExact model impl
+
+/-- the side condition of the judge theorems (`OpBounded`: node values below the case's `k`) failed -/
+def outOfRange (k : Nat) (req : List String) : String :=
+  s!"SPECFAIL generator left the proved range: a node value of [{String.intercalate " " req}] is not below k={k}"
+
+/-- the calls `FromElements` (data.rs `from_elements_indexable`) makes: a fresh graph, `add_node` per node
+element, then `Build::add_edge` between the nodes at the given positions (so the FIRST of two parallel
+edges wins, unlike `from_graph`).  Valid for distinct node weights and valid positions (`step` checks both). -/
+def fromElementsOps (ws : List Nat) (es : List (Nat × Nat × Nat)) : List Op :=
+  .clear :: (ws.map .addNode ++ es.filterMap fun e =>
+    match ws[e.1]?, ws[e.2.1]? with
+    | some a, some b => some (.buildAddEdge a b e.2.2)
+    | _, _ => none)
+
+/-- both machines advanced by calls whose node values are in range (`none`: out of range) -/
+def advance (d : DState) (ops : List Op) : Option DState :=
+  if ops.all (opBoundedB d.k) then some { d with s := (GM.run d.s ops).1, g := specRun d.g ops } else none
 
 def step (d : DState) (req : List String) (impl : String) : DState × String :=
   match req with
@@ -432,35 +534,36 @@ def step (d : DState) (req : List String) (impl : String) : DState × String :=
   | ["dump"] => (d, verdict (judgeDump d.g d.k impl) (modelDump d.s d.k) impl)
   | ["hashers"] => (d, cmpExact "same" impl)
   | ["from_elements", ws, es] =>
-    -- `FromElements` (data.rs `from_elements_indexable`): a fresh graph, `add_node` per node element, then
-    -- `Build::add_edge` between the nodes at the given positions (so the FIRST of two parallel edges
-    -- wins, unlike `from_graph`).  The harness only sends distinct node weights and valid positions.
     match parseNatsStrict ws, parseTriples es with
     | some ws, some es =>
-      let ops : List Op := .clear :: (ws.map .addNode ++ es.filterMap fun e =>
-        match ws[e.1]?, ws[e.2.1]? with
-        | some a, some b => some (.buildAddEdge a b e.2.2)
-        | _, _ => none)
-      ({ d with s := (GM.run d.s ops).1, g := specRun d.g ops },
-        verdict (if impl == "ok" then none else some s!"from_elements answered [{impl}]") "ok" impl)
+      -- the reading of `from_elements` as these calls needs distinct node weights (position = `from_index`)
+      -- and valid positions: checked, the generator must respect it
+      if !(nodupB ws) || !(es.all fun e => decide (e.1 < ws.length) && decide (e.2.1 < ws.length)) then
+        (d, s!"SPECFAIL generator left the proved range: from_elements with repeated node weights or a position out of range [{String.intercalate " " req}]")
+      else
+      match advance d (fromElementsOps ws es) with
+      | some d' => (d', verdict (if impl == "ok" then none else some s!"from_elements answered [{impl}]") "ok" impl)
+      | none => (d, outOfRange d.k req)
     | _, _ => (d, s!"SPECFAIL bad request {req}")
   | ["bump_rev", x] =>
     -- `all_edges_mut().rev()`: the same call as `bump_all`, yielded back to front
     let op := Op.bumpAll (x.toNat?.getD 0)
-    let r := GM.step d.s op
-    let model := match r.2 with | .triples l => showTriples l.reverse | o => showOut o
+    let model := match (GM.step d.s op).2 with | .triples l => showTriples l.reverse | o => showOut o
     let spec := match parseOut .triples impl with
       | some o => judge d.g d.k op o
       | none => some s!"unparsable answer [{impl}]"
-    ({ d with s := r.1, g := specStep d.g op }, verdict spec model impl)
+    match advance d [op] with
+    | some d' => (d', verdict spec model impl)
+    | none => (d, outOfRange d.k req)
   | _ =>
     match parseOp req with
     | none => (d, s!"SPECFAIL bad request {req}")
     | some op =>
-      let r := GM.step d.s op
       let spec := match parseOut (kindOf op) impl with
         | some o => judge d.g d.k op o
         | none => some s!"unparsable answer [{impl}]"
-      ({ d with s := r.1, g := specStep d.g op }, verdict spec (showOut r.2) impl)
+      match advance d [op] with
+      | some d' => (d', verdict spec (showOut (GM.step d.s op).2) impl)
+      | none => (d, outOfRange d.k req)
 
 end PetgraphModel.C03
